@@ -39,6 +39,11 @@ pub enum Amf0SerializationError {
     #[error("String length greater than 65,535")]
     NormalStringTooLong,
 
+    /// An empty object property name is how AMF0 marks the end of an object, so an object
+    /// with an empty property name cannot be encoded in a way that can be decoded again.
+    #[error("Object property names cannot be empty")]
+    EmptyObjectPropertyName,
+
     /// An I/O error occurred while writing to the output buffer.
     #[error("Failed to write to byte buffer")]
     BufferWriteError(#[from] io::Error),
